@@ -221,6 +221,15 @@ impl<F> FnGraph<F> {
                     .iter(graph_structure)
                     .for_each(|(_edge_id, child_fn_id)| {
                         predecessor_counts[child_fn_id.index()] -= 1;
+                        #[cfg(feature = "verif_hooks")]
+                        crate::verif_hooks::emit(|| {
+                            format!(
+                                r#"{{"ev":"s_dec","f":{},"child":{},"count":{}}}"#,
+                                fn_id.index() + 1,
+                                child_fn_id.index() + 1,
+                                predecessor_counts[child_fn_id.index()]
+                            )
+                        });
                         if predecessor_counts[child_fn_id.index()] == 0 {
                             if let Some(fn_ready_tx) = fn_ready_tx.as_ref() {
                                 // If we fail to queue a function, the scheduler has been
@@ -255,6 +264,23 @@ impl<F> FnGraph<F> {
                     fn_ready_tx.take();
                 }
             }
+
+            #[cfg(feature = "verif_hooks")]
+            crate::verif_hooks::emit(|| {
+                format!(
+                    r#"{{"ev":"s_poll","res":"{}","f":{},"remaining":{}}}"#,
+                    match &poll {
+                        Poll::Pending => "pending",
+                        Poll::Ready(None) => "none",
+                        Poll::Ready(Some(..)) => "item",
+                    },
+                    match &poll {
+                        Poll::Ready(Some(fn_ref)) => fn_ref.fn_id.index() + 1,
+                        _ => 0,
+                    },
+                    fns_remaining
+                )
+            });
 
             poll
         })
@@ -1925,6 +1951,15 @@ fn fn_id_from_interrupt(
         PollOutcome::NoInterrupt(fn_id) => (Some(fn_id), false),
     };
 
+    #[cfg(feature = "verif_hooks")]
+    crate::verif_hooks::emit(|| {
+        format!(
+            r#"{{"ev":"item","f":{},"interrupted":{}}}"#,
+            fn_id.map(|fn_id| fn_id.index() + 1).unwrap_or(0),
+            interrupted
+        )
+    });
+
     (fn_id, interrupted)
 }
 
@@ -1986,6 +2021,15 @@ async fn fn_done_send_locked(
 async fn fn_done_send(fn_done_tx: &Sender<NodeIndex<FnIdInner>>, fn_id: NodeIndex<FnIdInner>) {
     let fn_done_send_result = fn_done_tx.send(fn_id).await;
 
+    #[cfg(feature = "verif_hooks")]
+    crate::verif_hooks::emit(|| {
+        format!(
+            r#"{{"ev":"done_send","f":{},"sent":{}}}"#,
+            fn_id.index() + 1,
+            fn_done_send_result.is_ok()
+        )
+    });
+
     match fn_done_send_result {
         Ok(()) => {}
         Err(SendError(_fn_id)) => {
@@ -2009,6 +2053,8 @@ async fn fns_remaining_decrement(
     };
     if fns_remaining_val == 0 {
         fn_done_tx.write().await.take();
+        #[cfg(feature = "verif_hooks")]
+        crate::verif_hooks::emit(|| r#"{"ev":"done_tx_drop","why":"finished"}"#.to_string());
     }
 }
 
@@ -2020,6 +2066,8 @@ async fn fn_done_tx_drop_if_interrupted(
 ) {
     if interrupted {
         fn_done_tx.write().await.take();
+        #[cfg(feature = "verif_hooks")]
+        crate::verif_hooks::emit(|| r#"{"ev":"done_tx_drop","why":"interrupted"}"#.to_string());
     }
 }
 
@@ -2042,6 +2090,21 @@ fn stream_setup_init<'f>(
     let (fn_done_tx, fn_done_rx) = mpsc::channel::<FnId>(channel_capacity);
 
     fns_no_predecessors_preload(graph_structure, &predecessor_counts, &fn_ready_tx);
+
+    #[cfg(feature = "verif_hooks")]
+    crate::verif_hooks::emit(|| {
+        format!(
+            r#"{{"ev":"setup","order":"{}","counts":{},"preload":{}}}"#,
+            match stream_order {
+                StreamOrder::Forward => "fwd",
+                StreamOrder::Reverse => "rev",
+            },
+            crate::verif_hooks::nums(predecessor_counts.iter().copied()),
+            crate::verif_hooks::ids(
+                fns_no_predecessors(graph_structure, &predecessor_counts).map(|fn_id| fn_id.index())
+            ),
+        )
+    });
 
     StreamSetupInit {
         graph_structure,
@@ -2141,6 +2204,9 @@ async fn queuer_stream_fold(
                     fn_ready_tx.take();
                 }
 
+                #[cfg(feature = "verif_hooks")]
+                let mut verif_released = Vec::new();
+
                 graph_structure
                     .children(fn_id)
                     .iter(graph_structure)
@@ -2151,9 +2217,21 @@ async fn queuer_stream_fold(
                                 // If we fail to queue a function, the scheduler has been
                                 // interrupted.
                                 let _ = fn_ready_tx.try_send(child_fn_id);
+                                #[cfg(feature = "verif_hooks")]
+                                verif_released.push(child_fn_id.index());
                             }
                         }
                     });
+
+                #[cfg(feature = "verif_hooks")]
+                crate::verif_hooks::emit(|| {
+                    format!(
+                        r#"{{"ev":"q_recv","f":{},"released":{},"ready_open":{}}}"#,
+                        fn_id.index() + 1,
+                        crate::verif_hooks::ids(verif_released.iter().copied()),
+                        fn_ready_tx.is_some(),
+                    )
+                });
 
                 QueuerStreamState {
                     fns_remaining,
@@ -2174,6 +2252,10 @@ fn poll_and_track_fn_ready_common(
         fn_ready_rx.poll_recv(context).map(|fn_id_opt| {
             fn_id_opt.inspect(|&fn_id| {
                 fn_ids_processed.push(fn_id);
+                #[cfg(feature = "verif_hooks")]
+                crate::verif_hooks::emit(|| {
+                    format!(r#"{{"ev":"ready_recv","f":{}}}"#, fn_id.index() + 1)
+                });
             })
         })
     })
@@ -2212,6 +2294,10 @@ fn poll_and_track_fn_ready<'f>(
 
                 if let Some(fn_id) = fn_id {
                     fn_ids_processed.push(fn_id);
+                    #[cfg(feature = "verif_hooks")]
+                    crate::verif_hooks::emit(|| {
+                        format!(r#"{{"ev":"ready_recv","f":{}}}"#, fn_id.index() + 1)
+                    });
                 }
 
                 futures::future::ready(Some(fn_id_poll_outcome))
